@@ -15,6 +15,7 @@ import (
 	_ "github.com/klev-dev/klevdb/internal/zzverif/h_log"
 	_ "github.com/klev-dev/klevdb/internal/zzverif/h_codec"
 	_ "github.com/klev-dev/klevdb/internal/zzverif/h_recover"
+	_ "github.com/klev-dev/klevdb/internal/zzverif/h_step"
 	"github.com/klev-dev/klevdb/internal/zzverif/vrt"
 )
 
